@@ -184,8 +184,8 @@ From V Require Import Prelude.PyAst Prelude.PyWorld gen.F_client Proofs.FlowClie
 
 (* _create_bind builds exactly the Bind PDU Model/Conversation.v puts behind Handshake's abstract SBind (first lemma: the record, for every
    context list and optional trailer; second: that record for the contexts / trailer of a run is bind_pdu_of_sent) *)
-Theorem C17_flow_create_bind : forall wrap unwrap pfuel sch fuel c cs st,
-  run_self (WC wrap unwrap pfuel sch) fuel k_flow_create_bind [VO (OSelf c); VL (map cev cs); stv st]
+Theorem C17_flow_create_bind : forall wrap unwrap sch fuel c cs st,
+  run_self (WC wrap unwrap sch) fuel k_flow_create_bind [VO (OSelf c); VL (map cev cs); stv st]
   = Ok (VO (OBind {| b_header := create_pdu_header c_PT_BIND (match st with Some s => len (st_auth_value s) | None => 0 end) 1
                                     (match st with Some _ => Z.lor c_PFC_NONE c_PFC_SUPPORT_HEADER_SIGN | None => c_PFC_NONE end);
                      b_sec_trailer := st; b_max_xmit_frag := 5840; b_max_recv_frag := 5840; b_assoc_group := 0; b_contexts := cs |}),
@@ -201,8 +201,8 @@ Theorem C17_flow_create_bind_model : forall pv all ids tk,
 Proof. exact create_bind_pdu_is_model. Qed.
 Print Assumptions C17_flow_create_bind_model.
 
-Theorem C17_flow_create_alter_context : forall wrap unwrap pfuel sch fuel c cs s,
-  run_self (WC wrap unwrap pfuel sch) fuel k_flow_create_alter_context [VO (OSelf c); VL (map cev cs); VO (OSt s)]
+Theorem C17_flow_create_alter_context : forall wrap unwrap sch fuel c cs s,
+  run_self (WC wrap unwrap sch) fuel k_flow_create_alter_context [VO (OSelf c); VL (map cev cs); VO (OSt s)]
   = Ok (VO (OAlter {| b_header := create_pdu_header c_PT_ALTER_CONTEXT (len (st_auth_value s)) 1
                                      (k_alter_flags (cl_sign c) c_PFC_SUPPORT_HEADER_SIGN c_PFC_NONE);
                       b_sec_trailer := Some s; b_max_xmit_frag := 5840; b_max_recv_frag := 5840; b_assoc_group := 0; b_contexts := cs |}),
@@ -218,23 +218,23 @@ Proof. exact create_alter_pdu_is_model. Qed.
 Print Assumptions C17_flow_create_alter_context_model.
 
 (* AuthenticationProvider.step: the level-6 trailer (Conversation.step_trailer) around the security context's next token *)
-Theorem C17_flow_auth_step : forall wrap unwrap pfuel sch fuel ap tok sig_len,
-  run (WC wrap unwrap pfuel sch) fuel k_flow_auth_step [VO (OAuthP ap); optbv tok]
+Theorem C17_flow_auth_step : forall wrap unwrap sch fuel ap tok sig_len,
+  run (WC wrap unwrap sch) fuel k_flow_auth_step [VO (OAuthP ap); optbv tok]
   = match ap_legs ap with
     | [] => Raise KeyError
     | l :: _ => Ok (VO (OSt (step_trailer {| pv_type := ap_provider ap; pv_sig_len := sig_len |} (leg_token l))))
     end.
 Proof. exact flow_auth_step. Qed.
 Print Assumptions C17_flow_auth_step.
-Theorem C17_flow_auth_complete : forall wrap unwrap pfuel sch fuel ap,
-  run (WC wrap unwrap pfuel sch) fuel k_flow_auth_complete [VO (OAuthP ap)] = Ok (vb (ap_complete ap)).
+Theorem C17_flow_auth_complete : forall wrap unwrap sch fuel ap,
+  run (WC wrap unwrap sch) fuel k_flow_auth_complete [VO (OAuthP ap)] = Ok (vb (ap_complete ap)).
 Proof. exact flow_auth_complete. Qed.
 Print Assumptions C17_flow_auth_complete.
 
 (* SyncRpcClient.request (and AsyncRpcClient.request: the same term) is Conversation.rpc_request: the Response is returned, what went on
    the wire and what was handed to the security context's wrap is recorded in the client *)
-Theorem C17_flow_request : forall wrap unwrap pfuel sch fuel c cid op stub vt,
-  run_self (WC wrap unwrap pfuel sch) fuel k_flow_sync_request [VO (OSelf c); VI cid; VI op; VB stub; vtv vt]
+Theorem C17_flow_request : forall wrap unwrap sch fuel c cid op stub vt,
+  run_self (WC wrap unwrap sch) fuel k_flow_sync_request [VO (OSelf c); VI cid; VI op; VB stub; vtv vt]
   = match rpc_request (cl_flavour c) wrap unwrap (cl_auth c) (cl_sign c) cid op stub (option_map verification_trailer_pack vt) (cl_stream c) sch with
     | (Ok sent, Ok rsp) => Ok (VO (OResp rsp), Some (VO (OSelf (cl_add_sent c sent))))
     | (Raise e, _) => Raise e
